@@ -16,6 +16,9 @@ LEVEL_TEXT = ("static: decides the structural preconditions of the round trip fo
               "primitive is turned into success inside the codec; (ONEWRITER) only the framed writer appends to a connection's out buffer and the legacy "
               "builders/adapters serialise through the one writer. Does NOT decide byte-level equality of write(parse(x)) for all x."
               " Also decides (LIMIT) that the parse path fails on magnitudes only at frozen protocol limits, (PURE) that numeric wire fields reach the record unmodified, (VALID) that the writer refuses character-strings the parser rejects, (RCODE) that header values are not substituted (one known finding).")
+# fifth-round additions
+TECHNIQUE += "; " + 'induction-variable shape of the OPT lookup, sibling agreement of the question-count guards of parser and writer, forward (value NULL?, length 0?) analysis of the option setter'
+LEVEL_TEXT += " " + '(OPTSCAN) the OPT lookup walks the whole additional section; (QDCOUNT) the writer fails for a question count the parser rejects; (OPTLEN) an option cannot be stored with a length and no value.'
 LEVEL_NOTE = "trusts clang CFG + extractor; equality of re-parsed field values for all inputs needs execution and is outside this family"
 DESIGN_REF = "DESIGN.md §6/C03"
 EXPLANATION = LEVEL_TEXT
